@@ -28,7 +28,8 @@ ASSUMPTIONS = ["PARTIAL by nature: the loop model is proved to refine the snapsh
                "tickit_run is entered through the script op u<k>: the harness calls tickit_stop from inside the k-th ppoll of the run at the latest; "
                "the SIGINT watch tickit_run keeps for its duration is modelled (SIGINT stops the run); a run does not end with SIGINT still blocked-pending "
                "(cancelling the watch would unblock it and kill the process); tickit_run / tickit_tick are not re-entered from callbacks"]
-TRUSTED = ["model coq/LoopPipeDefs.v of the self-pipe fallback (pipe as a byte counter) and the checker coq/LoopPipeSpec.v (obligation per raise and watcher)",
+TRUSTED = ["model coq/LoopPipeDefs.v of the self-pipe fallback (pipe as a byte counter), proved to refine the snapshot specification coq/LoopPipeSnap.v "
+           "(C18_fallback_refines); oracle for F cases = that specification (log equality) and the checker coq/LoopPipeSpec.v (obligation per raise and watcher)",
            "model coq/LoopSigDefs.v hand-written after src/evloop-default.c and src/tickit.c (with fixes/C18-*.patch applied); "
            "specification coq/LoopSigSpec.v (snapshot semantics, no errno, no revents table; model proved to refine it in coq/LoopSigRefine.v)",
            "harness/loopharness.h: link-time replacement of ppoll that plays the kernel (real signals, real handler, scripted outcome)"]
